@@ -1,6 +1,7 @@
 """C10 -- results are independent of call history (memoisation is transparent)."""
 import gc
 import random
+import types as pytypes
 import threading
 import typing as t
 import warnings
@@ -151,6 +152,71 @@ def order_independence(rng, out):
     return n
 
 
+
+def handler_placement(out):
+    """the same handler object reaches one dataclass once as a call-level handler and once through an enclosing class; the
+    class has a handler of its own for the same type, so the two placements rank differently.  Each conversion must give
+    what it gives with an empty converter cache, whichever of the two ran first."""
+    import pane
+    from pane.convert import make_converter
+    from pane.converters import Converter
+
+    class Mark(Converter):
+        def __init__(self, tag):
+            self.tag = tag
+
+        def expected(self, plural=False):
+            return 'marked'
+
+        def try_convert(self, val):
+            return (self.tag, val)
+
+        def collect_errors(self, val):
+            return None
+
+        def into_data(self, val):
+            return val
+
+    def hfor(tag):
+        m = Mark(tag)
+
+        def h(ty, args=(), *, handlers):
+            return m if ty is int and not args else NotImplemented
+        return h
+    cache = getattr(make_converter, 'cache', None)
+    if not isinstance(cache, dict):
+        return 0
+    n = 0
+    saved = dict(cache)
+    try:
+        for trial in range(4):
+            h, g = hfor('outer-or-call'), hfor('own')
+            own = {'custom': [g]} if trial % 2 == 0 else {}
+            Inner = pytypes.new_class(terms.fresh_name('HpI'), (pane.PaneBase,), own, lambda d: d.update({'__annotations__': {'x': int}}))
+            Outer = pytypes.new_class(terms.fresh_name('HpO'), (pane.PaneBase,), {'custom': [h]}, lambda d: d.update({'__annotations__': {'inner': Inner, 'many': t.List[Inner]}, 'many': pane.field(default_factory=list)}))
+            terms.KEEP += [Inner, Outer]
+            jobs = {'direct with custom=[h]': lambda: Inner.from_data({'x': 1}, custom=[h]).x,
+                    'direct without handlers': lambda: Inner.from_data({'x': 1}).x,
+                    'through the enclosing class': lambda: (lambda o: (o.inner.x, [i.x for i in o.many]))(Outer.from_data({'inner': {'x': 1}, 'many': [{'x': 2}]}))}
+            ref = {}
+            for k, f in jobs.items():
+                cache.clear()
+                ref[k] = f()
+            import itertools
+            for order in itertools.permutations(jobs):
+                cache.clear()
+                for k in order:
+                    n += 1
+                    got = jobs[k]()
+                    if got != ref[k]:
+                        out.violation('C10:handler-placement:history-dependent', f'{k}: {got!r} after {list(order[:order.index(k)])} ran first, {ref[k]!r} with an empty '
+                                      f'converter cache (own class handler: {bool(own)})', {'order': list(order), 'job': k, 'own_handler': bool(own)})
+    finally:
+        cache.clear()
+        cache.update(saved)
+    return n
+
+
 def threads_run(rng, out):
     """several threads convert concurrently; results must equal the sequential ones"""
     from pane.convert import make_converter, from_data
@@ -256,6 +322,7 @@ def run(ctx, out):
     for h in range(6 if not thorough else 60):
         n += history_run(rng, 120 if not thorough else 300, out, 'history')
     n += order_independence(rng, out)
+    n += handler_placement(out)
     n += threads_run(rng, out)
     out.evaluations += n
     out.extra['converter_lookups_compared'] = n
